@@ -361,6 +361,8 @@ def measure_tree(kind):
             return saw_branch_root and nonempty and empty
         if kind in ("damage", "helpers"):
             return saw_branch_root and any(l.startswith("X ") and not l.startswith("X toraw") and not l.startswith("X note") for l in lines)
+        if kind == "deep":
+            return sum(1 for l in lines if l.startswith("O insert")) >= 1000 and any(l.startswith("O range") for l in lines)
         if kind == "faults":
             return saw_branch_root and any(l.startswith("F arm-") for l in lines) and any(l.startswith("F items") or l.startswith("F keys") or l.startswith("F partial") or l.startswith("F range") for l in lines)
         if kind == "api":
@@ -445,4 +447,5 @@ SUITES = {
     "tree-helpers": {"measure": measure_tree("helpers")},
     "tree-faults": {"measure": measure_tree("faults")},
     "tree-exh": {"measure": measure_tree("ops")},
+    "tree-deep": {"measure": measure_tree("deep")},
 }
